@@ -719,6 +719,22 @@ func (ls *LanceroSource) launchLanceroReader() {
 					log.Printf("DATA DROP, first word = %v\n", firstWord)
 
 				}
+				// Bytes lost in the middle of this read shift all later frames, and the frame bits with
+				// them. Use a frame only if the word after it starts a frame (frame bit set, none in the
+				// word before): the frames ahead of a loss are kept, and the next read starts at the
+				// damaged frame and is re-aligned above. (b holds 2 verified frame starts at this point.)
+				nverified := 0
+				for i := dev.frameSize; i+4 <= len(b); i += dev.frameSize {
+					if b[i+lanceroFBOffset]&1 == 0 || b[i-4+lanceroFBOffset]&1 != 0 {
+						break
+					}
+					nverified++
+				}
+				if unused := len(b) - nverified*dev.frameSize; unused >= dev.frameSize {
+					// timeFix is the time of the last byte read, so it is that much ahead of the last frame used
+					timeFix = timeFix.Add(-time.Duration(float64(ls.samplePeriod) * float64(unused) / float64(dev.frameSize)))
+				}
+				b = b[:nverified*dev.frameSize]
 				buffers = append(buffers, bytesToRawType(b))
 				bframes := len(b) / dev.frameSize
 				if bframes < framesUsed { // for multiple cards, take data amount equal to minimum across all cards
